@@ -164,6 +164,13 @@ def judge_wrapper_config_scan(seq):
         pe, ce = eas(beta, np.array([e[0] for e in evs], dtype=float), np.ones(n), np.zeros(n), np.zeros(n), cloudf=None)
         return np.asarray(pe, dtype=float).tobytes() + np.asarray(ce, dtype=float).tobytes()
 
+    # pass 1: what a fresh object returns for the values in force after every step (computed up front, so that no
+    # reference call runs between two calls of the history)
+    vals = [dict(val)]
+    for i in seq:
+        k, v = CFG_STEPS[i % len(CFG_STEPS)]
+        vals.append({**vals[-1], k: v})
+    wants = [call(EAS(sim.make_config(extra={"detector": {"optical": dict(v_)}}))) for v_ in vals]
     eas = EAS(cfg)
     for step in range(len(seq) + 1):
         if step:
@@ -176,8 +183,7 @@ def judge_wrapper_config_scan(seq):
                 cfg.detector.optical = type(cfg.detector.optical)(**val)
             else:
                 cfg.detector = cfg.detector.model_copy(update={"optical": type(cfg.detector.optical)(**val)})
-        want = call(EAS(sim.make_config(extra={"detector": {"optical": dict(val)}})))
-        if call(eas) != want:
+        if call(eas) != wants[step]:
             return [("wrapper_uses_the_configuration_in_force", [(("set", "optical replaced", "detector replaced")[i // len(CFG_STEPS)],) + CFG_STEPS[i % len(CFG_STEPS)] for i in seq[:step]], "same as a fresh object with these values", "differs")]
     return []
 
